@@ -95,7 +95,7 @@ ASSUMPTIONS = [
 def run(tier):
     spec = C07Spec(tier)
     if tier == "quick":
-        return e1check.run_e1(spec, tier, depth=5, state_budget=30000, time_budget=100, rule=RULE, assumptions=ASSUMPTIONS)
+        return e1check.run_e1(spec, tier, depth=5, state_budget=30000, time_budget=400, rule=RULE, assumptions=ASSUMPTIONS)
     return e1check.run_e1(spec, tier, depth=6, state_budget=120000, time_budget=900, rule=RULE, assumptions=ASSUMPTIONS)
 
 
